@@ -38,3 +38,7 @@ pub mod io;
 pub mod record;
 
 pub use self::{header::Header, record::Record};
+
+#[cfg(kani)]
+#[path = "/verif/harness/sam/root.rs"]
+mod verif_kani;
